@@ -35,6 +35,8 @@ GInit0 ==
   [ phase |-> "init", ntx |-> 0, nexp |-> 0,
     bal |-> [a \in Accts |-> 0], supply |-> 0,
     params |-> [k \in Keys |-> 0], acl |-> [k \in Keys |-> 0], aclExtra |-> 0, daoOwner |-> 0,
+    \* which of the named accounts have a record in the auth store (observed only, see Trace_Gov)
+    accex |-> << >>,
     lastRes |-> "n/a" ]
 
 GInitChain(s) ==
@@ -181,6 +183,8 @@ RejectedChangesNothing(pre, post, a) ==
   (a.a = "Tx" /\ post.lastRes # "ok") =>
     /\ ParamsOf(post) = ParamsOf(pre) /\ post.supply = pre.supply
     /\ \A x \in Accts \ {a.from, FEE} : post.bal[x] = pre.bal[x]
+    \* ... and no account record appears or disappears (but the fee collector's, which the first fee creates)
+    /\ \A i \in DOMAIN post.accex : i # FEE => post.accex[i] = pre.accex[i]
 
 GovActionProps == [][\A a \in GActs(gs) : gs' = GStepP(gs, a) =>
                        a.a = "InitChain" \/
